@@ -8,6 +8,7 @@
    validate the table are sampled. *)
 From Coq Require Import String List Bool Arith.
 From LNC Require Import TablesGen Tables Lockset LocksetProofs LockOrder LockOrderProofs.
+From LNC Require MailboxTables.
 Import ListNotations.
 
 (* in the current source: any two accesses to the same field, one of them a write, that two
@@ -43,6 +44,13 @@ Theorem c18_ranked_locking_never_deadlocks : forall (rank : nat -> nat) (prog : 
   forall st, reachable (init_state prog) st -> ~ stuck st.
 Proof. exact ordered_no_deadlock. Qed.
 Print Assumptions c18_ranked_locking_never_deadlocks.
+
+(* the mutexes of mailbox/*.go (ClientConn, ServerConn, Client, ConnData, NoiseGrpcConn): ranked order across calls,
+   stable acquisition closure, no lock left held at a return *)
+Theorem c18_mailbox_lock_order : MailboxTables.order_pairs_ranked = true /\
+  MailboxTables.acq_closure_stable = true /\ MailboxTables.leaked_locks = [].
+Proof. vm_compute. repeat split; reflexivity. Qed.
+Print Assumptions c18_mailbox_lock_order.
 
 (* no way out of a function leaves one of its mutexes locked *)
 Theorem c18_no_lock_left_held : leaked_locks = [].
